@@ -187,7 +187,9 @@ class Model():
         else:
             if asset.name in self.asset_names:
                 if allow_duplicate_names:
-                    asset.name = asset.name + ':' + str(asset.id)
+                    # The name with the id appended can be taken as well
+                    while asset.name in self.asset_names:
+                        asset.name = asset.name + ':' + str(asset.id)
                 else:
                     raise ValueError(
                         f'Asset name {asset.name} is a duplicate'
